@@ -110,6 +110,6 @@ def run(env: Env) -> Outcome:
     suite.direct_corr(env, out, env.budget(3000, 60000))
     suite.live_runs(env, out, env.budget(400, 8000), [monitors.mon_c03, c03x.mon_c03_runner], extra_specs=suite.load_corpus("C03"))
     _resume_runs(env, out, env.budget(150, 3000))
-    c03x.rewind_stream(env, out, env.budget(600, 12000))
-    c03x.server_idle_side(env, out, env.budget(20, 400))
+    c03x.rewind_stream(env, out, env.budget(600, 6000))
+    c03x.server_idle_side(env, out, env.budget(20, 200))
     return out
